@@ -12,7 +12,12 @@ ELEMENTWISE = {"numpy.sqrt", "numpy.exp", "numpy.sin", "numpy.cos", "numpy.array
                "numpy.where", "numpy.ones_like", "numpy.zeros_like", "numpy.zeros", "numpy.ones", "numpy.power",
                "numpy.multiply", "numpy.add", "numpy.subtract", "numpy.divide", "numpy.negative", "numpy.square",
                "numpy.tan", "numpy.log", "numpy.copy", "numpy.empty", "numpy.empty_like", "numpy.conj", "numpy.real",
-               "numpy.sinh", "numpy.cosh", "numpy.expm1", "numpy.sign", "numpy.full", "numpy.full_like"}
+               "numpy.sinh", "numpy.cosh", "numpy.expm1", "numpy.sign", "numpy.full", "numpy.full_like",
+               "numpy.maximum", "numpy.minimum", "numpy.fmax", "numpy.fmin", "numpy.absolute", "numpy.fabs", "numpy.clip", "numpy.hypot",
+               "numpy.float_power", "numpy.reciprocal", "numpy.true_divide", "numpy.isfinite", "numpy.isnan", "numpy.nan_to_num",
+               "numpy.logical_and", "numpy.logical_or", "numpy.logical_not", "numpy.less", "numpy.greater", "numpy.equal",
+               "numpy.arctan", "numpy.arctan2", "numpy.arcsin", "numpy.arccos", "numpy.log10", "numpy.log2", "numpy.exp2", "numpy.cbrt",
+               "numpy.atleast_1d", "numpy.ascontiguousarray", "numpy.asanyarray"}
 REDUCTIONS = {"numpy.max", "numpy.min", "numpy.sum", "numpy.mean", "numpy.argmax", "numpy.argmin", "numpy.cumsum",
               "numpy.prod", "numpy.std", "numpy.var", "numpy.median", "numpy.sort", "numpy.argsort", "numpy.diff",
               "numpy.maximum.accumulate", "numpy.any", "numpy.all"}
